@@ -247,7 +247,7 @@ Definition v1_get (st : state) (p : perms) (path : list Z) (view : Z) : reply :=
         let readable e := match can_read p (st_now st) (path_segs (e_meta e)) with POk => true | _ => false end in
         let wants_data := view_value view || view_target view in
         let denied := wants_data && existsb (fun e => negb (readable e)) sel in
-        if denied then REntries 403 []
+        if denied then REntries (if expired p (st_now st) then 401 else 403) []
         else REntries 0
                (flat_map (fun e =>
                             if view_meta view || (wants_data && readable e)
